@@ -402,9 +402,12 @@ fn faults_for(mode: Mode, tier: Tier, seed: u64, img: &ImageInfo) -> Vec<Fault> 
                 });
             }
         }
-        // crafted damage (C04 only): a byte of a pack's two header blocks altered and the block's
-        // CRC-32C recomputed, so that only the pack's global hash can notice
-        if mode == Mode::C04 {
+        // crafted damage (C04; C06 since round 11): a byte of a pack's two header blocks altered and
+        // the block's CRC-32C recomputed, so that only the pack's global hash can notice. For C06
+        // this is the damage that gets past the block CRCs into the parsing arithmetic: blocks
+        // that are valid one by one and do not belong together (sizes, counts and positions that
+        // contradict each other) - what a misdirected write of a whole sector also produces
+        if mode == Mode::C04 || mode == Mode::C06 {
             for span in &img.spans[fi] {
                 if span.kind == b'C' {
                     continue;
@@ -435,7 +438,7 @@ fn faults_for(mode: Mode, tier: Tier, seed: u64, img: &ImageInfo) -> Vec<Fault> 
         // has no check", or the hash of the altered bytes) is a forgery no unkeyed check can
         // notice, and is not asked. And the checked bytes (0..38) of the manifest's pack
         // descriptions, whose CRC lies in the part the global check blanks.
-        if mode == Mode::C04 {
+        if mode == Mode::C04 || mode == Mode::C06 {
             for span in &img.spans[fi] {
                 if span.kind == b'C' {
                     continue;
